@@ -579,6 +579,10 @@ func (st *State) event(name string, pos token.Pos, args ...Term) {
 		name = st.ctx.eng.stableEventName(st.fr.fn, name)
 	}
 	st.trace = append(st.trace, Event{Name: name, Args: args, Pos: pos})
+	if st.ctx.eventsSeen == nil {
+		st.ctx.eventsSeen = map[string]bool{}
+	}
+	st.ctx.eventsSeen[name] = true
 }
 
 func (st *State) countEvents(name string) Term {
